@@ -14,20 +14,26 @@ namespace PDesy
 
 /-! ### The theorems -/
 
-/- Requested statement, FALSE as it stands:
-     `C03_init : p.initState = true → AllocInv m (enter m p s).live ∧ HoldWorking (enter m p s).live`
-   `initialize` only empties the lists *inside* the index ranges of the model, so junk that the
-   incoming state holds outside them survives one-sidedly (`C03_init_counterexample` below).
-   The hypothesis `OutClean m s.live` (nothing allocated outside the ranges; true of `St.fresh`)
-   repairs it. -/
-/-- After `initialize(state_info=True)` on a state with nothing allocated outside the model's
-index ranges, every allocation list is empty, hence the allocation invariant holds and no task
-holds anything. -/
-theorem C03_init_partial {m : Model} {p : Params} {s : St}
-    (hp : p.initState = true) (hc : OutClean m s.live) :
+/- History: in an earlier version of the model `initialize` only emptied the lists *inside* the
+   index ranges of the model, so junk that the incoming state held outside them survived
+   one-sidedly and `C03_init` was false without the extra hypothesis `OutClean m s.live` (nothing
+   allocated outside the ranges).  `initLive` now resets every index (indices outside the ranges
+   stand for no object), that artefact and its counterexample are gone, and `C03_init`, `C03_run`,
+   `C03_run_updated`, `C03_final`, `C03_rerun'` hold for EVERY incoming state.  The `_partial`
+   names (and `C03_final_outclean`, `C03_rerun`) are kept as thin corollaries that ignore their
+   `OutClean` hypothesis, so that older references keep working. -/
+/-- After `initialize(state_info=True)`, whatever the state before, every allocation list is
+empty, hence the allocation invariant holds and no task holds anything. -/
+theorem C03_init {m : Model} {p : Params} {s : St} (hp : p.initState = true) :
     AllocInv m (enter m p s).live ∧ HoldWorking (enter m p s).live := by
-  obtain ⟨h1, h2, h3, h4⟩ := Alloc.enter_live_empty hp hc
+  obtain ⟨h1, h2, h3, h4⟩ := Alloc.enter_live_empty (m := m) (s := s) hp
   exact AllocInv_of_empty h1 h2 h3 h4
+
+/-- `C03_init` with the (no longer needed) hypothesis that nothing is allocated out of range. -/
+theorem C03_init_partial {m : Model} {p : Params} {s : St}
+    (hp : p.initState = true) (_hc : OutClean m s.live) :
+    AllocInv m (enter m p s).live ∧ HoldWorking (enter m p s).live :=
+  C03_init hp
 
 /-- Starting the loop from a state satisfying the allocation invariant (with every holder
 WORKING), every recorded step `s'` of the run satisfies it again, and at that step every
@@ -63,23 +69,33 @@ theorem C03_updated {m : Model} {p : Params} {s : St}
     (fun s hs => update_C03 s.time hs.1 hs.2)
     (fun _ hs _ => ⟨(stepBody_C03 p hs.1 hs.2).1, (stepBody_C03 p hs.1 hs.2).2.1⟩) fuel s h
 
-/- Requested: `C03_run : p.initState = true → ∀ s' ∈ runTrace m p s, …` and `C03_final` for an
-   arbitrary `s`; they inherit the `OutClean` hypothesis from `C03_init_partial`. -/
-/-- Every recorded step of `simulate m p s` (with `init_state=True`, from a state with nothing
-allocated out of range) satisfies the allocation invariant, has every holder WORKING, and has
-resource states determined by absence and assignment. -/
-theorem C03_run_partial {m : Model} {p : Params} {s : St}
-    (hp : p.initState = true) (hc : OutClean m s.live) :
+/-- Every recorded step of `simulate m p s` (with `init_state=True`, from ANY state `s`)
+satisfies the allocation invariant, has every holder WORKING, and has resource states determined
+by absence and assignment. -/
+theorem C03_run {m : Model} {p : Params} {s : St} (hp : p.initState = true) :
     ∀ s' ∈ runTrace m p s,
       AllocInv m s'.live ∧ HoldWorking s'.live ∧
       ResInv m (s'.time - 1) (workingAt p (s'.time - 1)) s'.live :=
-  C03_trace (C03_init_partial hp hc) _
+  C03_trace (C03_init hp) _
 
 /-- … and so does every `updated` state of the run. -/
-theorem C03_run_updated_partial {m : Model} {p : Params} {s : St}
-    (hp : p.initState = true) (hc : OutClean m s.live) :
+theorem C03_run_updated {m : Model} {p : Params} {s : St} (hp : p.initState = true) :
     ∀ s' ∈ runUpdTrace m p s, AllocInv m s'.live ∧ HoldWorking s'.live :=
-  C03_updated (C03_init_partial hp hc) _
+  C03_updated (C03_init hp) _
+
+/-- `C03_run` with the (no longer needed) `OutClean` hypothesis. -/
+theorem C03_run_partial {m : Model} {p : Params} {s : St}
+    (hp : p.initState = true) (_hc : OutClean m s.live) :
+    ∀ s' ∈ runTrace m p s,
+      AllocInv m s'.live ∧ HoldWorking s'.live ∧
+      ResInv m (s'.time - 1) (workingAt p (s'.time - 1)) s'.live :=
+  C03_run hp
+
+/-- `C03_run_updated` with the (no longer needed) `OutClean` hypothesis. -/
+theorem C03_run_updated_partial {m : Model} {p : Params} {s : St}
+    (hp : p.initState = true) (_hc : OutClean m s.live) :
+    ∀ s' ∈ runUpdTrace m p s, AllocInv m s'.live ∧ HoldWorking s'.live :=
+  C03_run_updated hp
 
 /-- A continued run (`init_state=False`) from a state that satisfies the invariant keeps it. -/
 theorem C03_run_continue {m : Model} {p : Params} {s : St}
@@ -92,15 +108,21 @@ theorem C03_run_continue {m : Model} {p : Params} {s : St}
     cases p.initLog <;> rfl
   exact C03_trace (by rw [e]; exact h) _
 
-/-- The state `simulate` returns satisfies the allocation invariant, with every holder WORKING. -/
-theorem C03_final_partial {m : Model} {p : Params} {s : St}
-    (hp : p.initState = true) (hc : OutClean m s.live) :
+/-- The state `simulate` returns (with `init_state=True`, from ANY state) satisfies the
+allocation invariant, with every holder WORKING. -/
+theorem C03_final {m : Model} {p : Params} {s : St} (hp : p.initState = true) :
     AllocInv m (simulate m p s).live ∧ HoldWorking (simulate m p s).live := by
   rw [simulate_eq]
   exact loop_inv m p (fun s => AllocInv m s.live ∧ HoldWorking s.live)
     (fun s hs => update_C03 s.time hs.1 hs.2)
     (fun _ hs _ => ⟨(stepBody_C03 p hs.1 hs.2).1, (stepBody_C03 p hs.1 hs.2).2.1⟩)
-    (fun _ _ hs => hs) _ _ (C03_init_partial hp hc)
+    (fun _ _ hs => hs) _ _ (C03_init hp)
+
+/-- `C03_final` with the (no longer needed) `OutClean` hypothesis. -/
+theorem C03_final_partial {m : Model} {p : Params} {s : St}
+    (hp : p.initState = true) (_hc : OutClean m s.live) :
+    AllocInv m (simulate m p s).live ∧ HoldWorking (simulate m p s).live :=
+  C03_final hp
 
 /-- Under the allocation invariant a FINISHED task holds nothing. -/
 theorem C03_released {m : Model} {l : Live} {t : Nat}
@@ -175,11 +197,11 @@ theorem C03_nonworking {m : Model} {k : Nat} {l : Live} (h : ResInv m k false l)
 /-- If the workplaces only list facilities of the model (`FacsInRange`), a run never allocates anything
 outside the index ranges, so the state `simulate` returns can be `initialize`d and run again … -/
 theorem C03_final_outclean {m : Model} {p : Params} {s : St} (hwf : FacsInRange m)
-    (hp : p.initState = true) (hc : OutClean m s.live) : OutClean m (simulate m p s).live := by
+    (hp : p.initState = true) (_hc : OutClean m s.live) : OutClean m (simulate m p s).live := by
   rw [simulate_eq]
-  have h0 := C03_init_partial hp hc
+  have h0 := C03_init (m := m) (s := s) hp
   have c0 : OutClean m (enter m p s).live := by
-    obtain ⟨h1, h2, h3, h4⟩ := Alloc.enter_live_empty hp hc
+    obtain ⟨h1, h2, h3, h4⟩ := Alloc.enter_live_empty (m := m) (s := s) hp
     exact ⟨fun t _ => ⟨h1 t, h2 t⟩, fun w _ => h3 w, fun f _ => h4 f⟩
   exact (loop_inv m p (fun s => (AllocInv m s.live ∧ HoldWorking s.live) ∧ OutClean m s.live)
     (fun s hs => ⟨update_C03 s.time hs.1.1 hs.1.2, update_OutClean s.time hs.1.1 hs.2⟩)
@@ -187,13 +209,21 @@ theorem C03_final_outclean {m : Model} {p : Params} {s : St} (hwf : FacsInRange 
       stepBody_OutClean p hwf hs.1.1 hs.2⟩)
     (fun _ _ hs => hs) _ _ ⟨h0, c0⟩).2
 
-/-- … and the second run satisfies C03 at every step as well. -/
-theorem C03_rerun {m : Model} {p p' : Params} {s : St} (hwf : FacsInRange m)
-    (hp : p.initState = true) (hp' : p'.initState = true) (hc : OutClean m s.live) :
+/-- A second run (with `init_state=True`) on an already simulated project — whatever the first
+run's parameters, whatever the model — satisfies C03 at every step as well. -/
+theorem C03_rerun' {m : Model} {p p' : Params} {s : St} (hp' : p'.initState = true) :
     ∀ s' ∈ runTrace m p' (simulate m p s),
       AllocInv m s'.live ∧ HoldWorking s'.live ∧
       ResInv m (s'.time - 1) (workingAt p' (s'.time - 1)) s'.live :=
-  C03_run_partial hp' (C03_final_outclean hwf hp hc)
+  C03_run hp'
+
+/-- `C03_rerun'` with the (no longer needed) hypotheses of the earlier version. -/
+theorem C03_rerun {m : Model} {p p' : Params} {s : St} (_hwf : FacsInRange m)
+    (_hp : p.initState = true) (hp' : p'.initState = true) (_hc : OutClean m s.live) :
+    ∀ s' ∈ runTrace m p' (simulate m p s),
+      AllocInv m s'.live ∧ HoldWorking s'.live ∧
+      ResInv m (s'.time - 1) (workingAt p' (s'.time - 1)) s'.live :=
+  C03_rerun' hp'
 
 /-! ### Hypotheses are satisfiable; requested-but-false statements are refuted -/
 
@@ -285,15 +315,14 @@ def C03.exS : St :=
       allocW := fun t => if t = 5 then [0] else []
       wasg := fun w => if w = 0 then [5] else [] } }
 
-theorem C03_init_counterexample :
-    ¬ (∀ (m : Model) (p : Params) (s : St), p.initState = true →
-        AllocInv m (enter m p s).live ∧ HoldWorking (enter m p s).live) := by
+/-- the former counterexample state is now repaired by `initialize`: the junk at the
+out-of-range task index 5 is reset like everything else -/
+example : ¬ OutClean C03.exM C03.exS.live ∧
+    (enter C03.exM {} C03.exS).live.allocW 5 = [] ∧ (enter C03.exM {} C03.exS).live.wasg 0 = [] := by
+  refine ⟨?_, by decide +kernel, by decide +kernel⟩
   intro h
-  have h1 := (h C03.exM {} C03.exS rfl).1.w_two 5 0
-  have h2 : (enter C03.exM {} C03.exS).live.allocW 5 = [0] := by decide +kernel
-  have h3 : (enter C03.exM {} C03.exS).live.wasg 0 = [] := by decide +kernel
-  rw [h2, h3] at h1
-  simp at h1
+  have := (h.1 5 (by decide)).1
+  simp [C03.exS] at this
 
 /-- task 0 FINISHED, nothing held -/
 example : AllocInv C03.exM { Live.empty with tstate := fun t => if t = 0 then .finished else .none } ∧
@@ -304,6 +333,11 @@ example : AllocInv C03.exM { Live.empty with tstate := fun t => if t = 0 then .f
 -- premises of `C03_trace` / `C03_updated` / `C03_run_continue`
 example : AllocInv C03.exM (C03.exLw .working) ∧ HoldWorking (C03.exLw .working) :=
   C03.exLw_inv .working
+-- premise of `C03_init` / `C03_run` / `C03_run_updated` / `C03_final` / `C03_rerun'`, on a dirty state
+example : ({} : Params).initState = true ∧ C03.exS ≠ St.fresh :=
+  ⟨rfl, fun h => by
+    have := congrArg (fun s => s.live.allocW 5) h
+    simp [C03.exS, St.fresh, Live.empty] at this⟩
 -- premises of `C03_init_partial` / `C03_run_partial` / `C03_final_partial` / `C03_rerun`
 example : ({} : Params).initState = true ∧ OutClean C03.exM St.fresh.live ∧ FacsInRange C03.exM :=
   ⟨rfl, OutClean_empty _, by intro p f h; simp [C03.exM] at h⟩
@@ -321,6 +355,11 @@ example : ((runTrace C03.exM {} St.fresh).map fun s =>
 example : ((runTrace C03.exM {} St.fresh).map fun s => (s.live.wstate 0, s.live.wasg 0)) =
     [(.working, [0]), (.working, [0]), (.working, [1])] := by decide +kernel
 
+#print axioms C03_init
+#print axioms C03_run
+#print axioms C03_run_updated
+#print axioms C03_final
+#print axioms C03_rerun'
 #print axioms C03_init_partial
 #print axioms C03_trace
 #print axioms C03_updated
@@ -336,7 +375,6 @@ example : ((runTrace C03.exM {} St.fresh).map fun s => (s.live.wstate 0, s.live.
 #print axioms C03_rerun
 #print axioms allocate_AllocInv_counterexample
 #print axioms chkWorking_HoldWorking_counterexample
-#print axioms C03_init_counterexample
 #print axioms allocate_AllocInv_partial
 #print axioms chkWorking_HoldWorking_partial
 #print axioms Alloc.step_core
